@@ -3,12 +3,15 @@
    properties that own the models (Morgan C01, Fingerprint C17, Rings C06, Iso C07), required read-only.
 
    What is a theorem here:
-     (a) the static audit: every place of the CURRENT anchored source where a set's iteration order (or a hash() value)
+     (a) the static audit (126 sites in the 62 .py files anchored by any of the 20 properties + standardize/reaction.py):
+         every place of the CURRENT source where a set's iteration order (or a hash() value)
          can reach a result is in the hand-written allow-list with its reason, and vice versa (regenerated every run);
      (b) the reasons: a loop with a commuting body, sorted()/min() on a key, a canonical set built by add(), a lookup
          table, deletion of a vertex set, a bit mask - each gives the same value for EVERY enumeration of the set (hence
          for every hash seed and process); the restated per-family theorems say the same for _morgan, _chains,
          _connected_components and lazy_product;
+         a dict of lists filled in set order (_fragments) keeps its keys, the members of every list and the hash set computed
+         from it; per-member updates, any()/all() scans, sorted()/max() of int sets;
      (c) the memoisation layer is transparent for every history of reads, mutations+flush and flushes, and a copy
          (empty cache) observes the same values.
    What is NOT a theorem: that CPython enumerates a set of ints in an order that depends only on its construction
